@@ -202,7 +202,9 @@ pub fn run(args: &Args) {
     let n_grammars = args.budget(12_000, 2_000_000);
     let mut cfg = GenCfg::new(Profile::Full);
     cfg.big_choices_pct = 12;
-    cfg.long_literals_pct = 6;
+    cfg.long_literals_pct = 10;
+    cfg.negpred_pct = 6;
+    cfg.prefix_family_pct = 8;
     for gi in 0..n_grammars {
         if rep.elapsed() > args.max_s {
             rep.notes.insert("stopped_early_at_grammar".into(), json!(gi));
